@@ -544,7 +544,11 @@ class StateMachine:
         """
         self.next_state(state)
         # TODO: may want to do this differently?
+        # the nested iteration must not consume the engagement request of
+        # the iteration that is still in progress
+        should_engage = self.__should_engage
         self.execute()
+        self.__should_engage = should_engage
 
     def done(self) -> None:
         """Call this function to end execution of the state machine.
